@@ -283,6 +283,19 @@ func playOne(id int, d Desc) e2eRecord {
 		return rec
 	}
 	rec.Result = runClient(s, 25*time.Second)
+	// watchdog outcomes depend on wall-clock time (the harness' own 25 s limit; the Client's
+	// 10 s DTS-RTC cap needs less than 5 s of scheduling delay): accept them only if they
+	// reproduce three times
+	for try := 0; try < 2; try++ {
+		if rec.Result.Outcome != "timeout" && !(rec.Desc.Cap && rec.Desc.Addr != "range-implicit" && rec.Result.Outcome != "dtsrtc") {
+			break
+		}
+		s, err = newSynth(&rec.Desc, salt)
+		if err != nil {
+			break
+		}
+		rec.Result = runClient(s, 25*time.Second)
+	}
 	rec.DL = downloaded(s, &rec.Result)
 	streams := rec.Desc.streams()
 	// which segments the client was meant to download (playlist semantics); the request log
@@ -561,6 +574,15 @@ func main() {
 		}
 	}
 	sw.close()
+	nDirectCases := 0
+	var e2eIndex []caseRef
+	for _, c := range sw.index {
+		if c.Kind == "direct" {
+			nDirectCases++
+		} else {
+			e2eIndex = append(e2eIndex, c)
+		}
+	}
 	dist["e2e:units-delivered"] = delivered
 	dist["direct:distinct"] = len(directDistinct)
 
@@ -570,6 +592,19 @@ func main() {
 		jb, _ := json.Marshal(failures[b].Input)
 		return len(ja) < len(jb)
 	})
+	// keep the three smallest inputs per signature; the true counts go to the distribution
+	{
+		kept := map[string]int{}
+		var out []failure
+		for _, f := range failures {
+			dist["oracle:"+f.Signature]++
+			if kept[f.Signature] < 3 {
+				kept[f.Signature]++
+				out = append(out, f)
+			}
+		}
+		failures = out
+	}
 	for i := range failures {
 		failures[i].Input = map[string]interface{}{"desc": failures[i].Input}
 	}
@@ -588,7 +623,9 @@ func main() {
 		"distribution":                  dist,
 		"oracle_failures":               failures,
 		"errors":                        errorsOut,
-		"cases":                         sw.index,
+		"direct_cases":                  nDirectCases,
+		"direct_per_shard":              5000,
+		"e2e_cases":                     e2eIndex,
 		"shards":                        sw.idx + 1,
 		"traces_validated_against_impl": len(descs),
 	}
